@@ -785,7 +785,7 @@ Section Exec.
                   | RDone _ rops s2 =>
                       let results := rev rops in                   (* bottom first *)
                       let n := zlen results in
-                      if n <? nrets then CErr (RFail "missing return" pos s2) else     (* mkFunc: panic("missing return") in the caller's frame *)
+                      if n <? nrets then CErr (RFail "missing return" pos (pop_bt s2)) else     (* mkFunc: frame and backtrace restored, then panic("missing return") *)
                       (* result typing applies to the TOP nrets cells *)
                       let rtypes := skipn (Z.to_nat nargs) types in
                       let keep := firstn (Z.to_nat (n - nrets)) results in
